@@ -83,7 +83,10 @@ func c04Units(t core.Tier) []c04Unit {
 			us = append(us, c04Unit{"chain4", i})
 		}
 	}
-	us = append(us, c04Unit{"text", 0}, c04Unit{"bool", 0}, c04Unit{"calls", 0}, c04Unit{"chain4q", 0})
+	us = append(us, c04Unit{"text", 0}, c04Unit{"calls", 0}, c04Unit{"chain4q", 0})
+	for i := 0; i < 21; i++ { // one unit per Boolean leaf (the first operand)
+		us = append(us, c04Unit{"bool", i})
+	}
 	return us
 }
 
@@ -216,15 +219,28 @@ func (c04) RunUnit(t core.Tier, u int, r *core.Reporter) {
 			ref.Bin(">", ref.N(2), ref.N(1)), ref.Bin("=", ref.S("a"), ref.S("a")), ref.Bin(">", ref.Call("float", ref.Value()), ref.Fl(1.5)),
 			ref.Bin("<", ref.Bin("+", ref.N(1), ref.N(2)), ref.Call("int", ref.Value())), ref.Bin("=", ref.Bin("*", ref.N(3), ref.Fl(0.5)), ref.Fl(1.5)),
 		}
-		for _, a := range B {
+		nB := len(B)
+		// every comparison operator on operands that meet their bound in the data
+		// (a rewrite that negates or mirrors a comparison shows on the equal pair)
+		iv := func() *ref.Expr { return ref.Call("int", ref.Value()) }
+		B = append(B,
+			ref.Bin("<=", iv(), ref.N(2)), ref.Bin(">=", iv(), ref.N(2)), ref.Bin("!=", iv(), ref.N(2)), ref.Bin("<", iv(), ref.N(2)), ref.Bin("<=", ref.N(2), iv()),
+			ref.Bin("<=", ref.Value(), ref.S("2")), ref.Bin(">=", ref.Key(), ref.S("b")), ref.Bin("!=", ref.Key(), ref.S("a")), ref.Bin("^=", ref.Key(), ref.S("a")),
+			ref.In(ref.Value(), ref.S("1"), ref.S("2")), ref.Btw(iv(), ref.N(1), ref.N(2)),
+		)
+		if len(B) != 21 {
+			panic("c04: the number of Boolean leaves changed, adjust c04Units")
+		}
+		for _, a := range B[un.i : un.i+1] {
 			run(a, true)
 			run(ref.Not(a.Clone()), true)
+			run(ref.Not(ref.Not(a.Clone())), true)
 			for _, b := range B {
 				for _, o1 := range []string{"&", "|", "and", "or"} {
 					e1 := bin(o1, a, b)
 					run(e1, true)
 					run(ref.Not(e1.Clone()), true)
-					for _, c := range B {
+					for _, c := range B[:nB] {
 						for _, o2 := range []string{"&", "|"} {
 							run(bin(o2, e1, c), true)
 							run(bin(o2, c, e1), true)
